@@ -1,1 +1,497 @@
-/-! Property theorems for C10 (only property-level statements and non-vacuity examples live here). -/
+import SpoxModel.Lemmas.Tensor
+import SpoxModel.Lemmas.Attr
+/-!
+# C10 — constants and attributes are embedded exactly and captured at the call
+
+Property theorems only.  Part 1: the encoding (`from_array` → typed-field TensorProto → `to_array`).
+-/
+set_option linter.unusedSimpArgs false  -- one simp set serves all 16 dtype / 11 class cases
+
+namespace C10
+open Tensor Generated.TensorEnum
+
+/-! ## Obligations on the tables generated from the code on this run -/
+
+/-- spox's element-type → ONNX enum table is exact: the enum it writes denotes the same element
+    type in the ONNX specification (in particular it is injective: no two element types share an
+    enum, e.g. `bool` is not written as `uint8`). -/
+theorem enum_exact (d : DType) : onnxDType (enumOf d) = some d := by
+  cases d <;> rfl
+
+/-- Typed-field layout (ONNX IR: "for int32, uint8, int8, uint16, int16, bool, float16, bfloat16:
+    int32_data; uint32, uint64: uint64_data; …"). -/
+theorem field_layout (d : DType) :
+    fieldOf d = match d with
+      | .bool | .int8 | .int16 | .int32 | .uint8 | .uint16 | .float16 | .bfloat16 => Field.int32Data
+      | .int64 => .int64Data
+      | .uint32 | .uint64 => .uint64Data
+      | .float32 | .complex64 => .floatData
+      | .float64 | .complex128 => .doubleData
+      | .str => .stringData := by
+  cases d <;> rfl
+
+private theorem map_eq_self {f : Nat → Nat} {l : List Nat} (h : ∀ w ∈ l, f w = w) : l.map f = l := by
+  induction l with
+  | nil => rfl
+  | cons x xs ih =>
+    simp only [List.map_cons, List.cons.injEq]
+    exact ⟨h x (by simp), ih (fun w hw => h w (by simp [hw]))⟩
+
+/-- **Round trip.** For every array of every representable element type, every shape (the shape
+    is carried verbatim, so `()`, `(0,)`, `(0,2)` need no special case) and every payload, decoding
+    what `from_array` wrote gives the array back — bit for bit, except that a *signalling* float32
+    NaN (also as a component of a complex64) has its quiet bit set when the platform's
+    float→double conversion does that (`canon`, see `canon_spec`). -/
+theorem roundtrip (q : Bool) (a : Arr) (name : String) (h : a.WF) :
+    ∃ t, fromArray q a name = some t ∧ toArray q t = some (canon q a) := by
+  obtain ⟨d, shape, words, strs⟩ := a
+  have hr := h.range
+  have hs := h.no_strs
+  have hw := h.no_words
+  simp only at hr hs hw
+  cases d <;>
+    simp only [fromArray, enumOf, onnxDType, fieldOf, toArray, canon, ne_eq, not_true_eq_false,
+      if_false, reduceCtorEq, not_false_eq_true, forall_const, List.map_map, exists_eq_left',
+      Option.some.injEq, Arr.mk.injEq, true_and, DType.bits] at hr hs hw ⊢
+  all_goals first
+    | (refine ⟨?_, hs.symm⟩; apply map_eq_self; intro w hw'; have := hr w hw';
+       try simp only [Function.comp, decInt32, encInt, DType.signed, DType.bits, if_true, Bool.false_eq_true, if_false]
+       first
+         | exact ofInt_toSigned_8 w this | exact ofInt_toSigned_16 w this
+         | exact ofInt_toSigned_32 w this | exact ofInt_toSigned_64 w this
+         | exact ofInt_nat_16 w this | exact ofInt_nat_8 w this | exact ofInt_nat_bool w this
+         | exact Nat.mod_eq_of_lt this)
+    | (refine ⟨?_, hs.symm⟩; apply List.map_congr_left; intro w _; exact quiet32_idem q w)
+    | exact hs.symm
+    | (subst hw; rw [mapM_decode_encode]; rfl)
+
+
+/-- `canon` only ever sets the quiet bit of float32 components that are signalling NaNs; dtype,
+    shape, strings, the number of words and every other word are untouched. -/
+theorem canon_spec (q : Bool) (a : Arr) :
+    (canon q a).dtype = a.dtype ∧ (canon q a).shape = a.shape ∧ (canon q a).strs = a.strs ∧
+    (canon q a).words.length = a.words.length ∧
+    ∀ i (hi : i < a.words.length), ∃ hi' : i < (canon q a).words.length,
+      (canon q a).words[i] = a.words[i] ∨
+        (isNaN32 a.words[i] = true ∧ quietBit32 a.words[i] = false ∧
+          (canon q a).words[i] = a.words[i] + 2 ^ 22) := by
+  obtain ⟨d, shape, words, strs⟩ := a
+  cases d
+  case float32 | complex64 =>
+    refine ⟨rfl, rfl, rfl, by simp [canon], ?_⟩
+    intro i hi
+    refine ⟨by simpa [canon] using hi, ?_⟩
+    simp only [canon, List.getElem_map]
+    exact quiet32_spec q _
+  all_goals exact ⟨rfl, rfl, rfl, rfl, fun i hi => ⟨hi, Or.inl rfl⟩⟩
+
+/-- Bit-exact round trip: nothing at all changes unless a float32 component is a signalling NaN
+    on a quietening platform. Covers NaN payloads with the quiet bit, −0.0, denormals, infinities,
+    every integer pattern of every width (uint64 above 2^63 included), empty and 0-d shapes. -/
+theorem roundtrip_exact (q : Bool) (a : Arr) (name : String) (h : a.WF)
+    (hq : q = false ∨ (a.dtype ≠ .float32 ∧ a.dtype ≠ .complex64) ∨ ∀ w ∈ a.words, isNaN32 w = false) :
+    ∃ t, fromArray q a name = some t ∧ toArray q t = some a := by
+  obtain ⟨t, h1, h2⟩ := roundtrip q a name h
+  refine ⟨t, h1, ?_⟩
+  rw [h2]
+  congr 1
+  obtain ⟨d, shape, words, strs⟩ := a
+  cases d
+  case float32 | complex64 =>
+    have key : words.map (quiet32 q) = words := by
+      rcases hq with hq | hq | hq
+      · subst hq; exact map_eq_self (fun w _ => quiet32_off w)
+      · simp at hq
+      · exact map_eq_self (fun w hw => quiet32_not_nan q w (hq w hw))
+    simp only [canon, key]
+  all_goals rfl
+
+/-- **The Var has exactly the array's type.** The element type and shape that ONNX type inference
+    (Constant) / `Tensor(arr.dtype, arr.shape)` (initializer, argument default) read off the embedded
+    tensor are the array's own. -/
+theorem const_type_exact (q : Bool) (a : Arr) (name : String) (t : TProto)
+    (h : fromArray q a name = some t) : typeOfProto t = some (a.dtype, a.shape) := by
+  obtain ⟨d, shape, words, strs⟩ := a
+  cases d <;>
+    simp only [fromArray, enumOf, onnxDType, fieldOf, ne_eq, not_true_eq_false, if_false,
+      Option.some.injEq] at h <;> subst h <;> rfl
+
+/-- `const(value, dtype)` = `constant(value=np.array(value, dtype))`: numpy's conversion is a
+    parameter; all that is assumed of it is that it delivers the requested element type and keeps
+    the shape. Then the Var has the *requested* type. -/
+theorem const_requested_dtype (q : Bool) (npArray : Arr → DType → Arr)
+    (hnp : ∀ a d, (npArray a d).dtype = d ∧ (npArray a d).shape = a.shape)
+    (a : Arr) (d : DType) (t : TProto) (h : fromArray q (npArray a d) "" = some t) :
+    typeOfProto t = some (d, a.shape) := by
+  rw [const_type_exact q _ _ t h, (hnp a d).1, (hnp a d).2]
+
+/-- `from_array` succeeds on every array (no element type is left without enum or field). -/
+theorem fromArray_total (q : Bool) (a : Arr) (name : String) : (fromArray q a name).isSome = true := by
+  obtain ⟨d, shape, words, strs⟩ := a
+  cases d <;> rfl
+
+/-! Non-vacuity and the special values of the statement. -/
+section examples
+def ex (d : DType) (shape : List Nat) (ws : List Nat) : Arr := ⟨d, shape, ws, []⟩
+-- uint64 beyond the signed range stays in `uint64_data`, unchanged
+example : (fromArray true (ex .uint64 [2] [2 ^ 64 - 1, 2 ^ 63])).map (·.uint64Data) = some [18446744073709551615, 9223372036854775808] := by decide
+-- int8 −1 and int16 −32768 are sign-extended into int32_data and come back
+example : (fromArray true (ex .int8 [1] [255])).map (·.int32Data) = some [-1] := by decide
+example : (fromArray true (ex .int16 [] [32768])).bind (toArray true) = some (ex .int16 [] [32768]) := by decide
+-- float16 NaN / −0.0 patterns travel as their uint16 view
+example : (fromArray true (ex .float16 [2] [0x7c01, 0x8000])).map (·.int32Data) = some [31745, 32768] := by decide
+-- a signalling float32 NaN is quietened (only) when the platform does so
+example : (fromArray true (ex .float32 [1] [0x7f800001])).map (·.floatData) = some [0x7fc00001] := by decide
+example : (fromArray false (ex .float32 [1] [0x7f800001])).map (·.floatData) = some [0x7f800001] := by decide
+-- −0.0, quiet NaN with payload, denormal: exact
+example : (fromArray true (ex .float32 [3] [0x80000000, 0x7fc00123, 1])).bind (toArray true) = some (ex .float32 [3] [0x80000000, 0x7fc00123, 1]) := by decide
+-- empty and zero-dimensional arrays
+example : (fromArray true (ex .float64 [0, 2] [])).bind (toArray true) = some (ex .float64 [0, 2] []) := by decide
+example : (fromArray true (ex .bool [] [1])).bind (toArray true) = some (ex .bool [] [1]) := by decide
+-- non-ASCII strings: "ü" is the two bytes C3 BC
+example : (fromArray true ⟨.str, [1], [], [['ü']]⟩).map (fun t => t.stringData.map (·.toList)) = some [[0xC3, 0xBC]] := by decide +kernel
+end examples
+
+/-! ## Part 2 — attribute kinds and validation -/
+open Attr Generated.AttrKinds
+
+/-- The declared `AttributeProto` type of every class is the one ONNX means (generated table). -/
+theorem generated_kinds_exact (c : Cls) : kindOf c = specKind c := by cases c <;> rfl
+
+/-- The model knows every public `Attr` class of the module, and none has disappeared. -/
+theorem generated_classes_complete : unknownClasses = [] ∧ missingClasses = [] := by decide
+
+/-- The guards the TypeError guarantee rests on are in the source. -/
+theorem generated_guards : tensorGuard = true ∧ validateCatchAll = true ∧
+    dtypeCatches.contains "ValueError" = true ∧ dtypeCatches.contains "KeyError" = true ∧
+    dtypeSpecCatches.contains "ValueError" = true := by decide
+
+/-- **Kind exactness.** Whenever a constructor returns, the attribute is emitted under the name it
+    was given and with the ONNX attribute type of its class. -/
+theorem attr_kind_exact (q : Bool) (c : Cls) (name : String) (v sv : PyVal) (p : AProto)
+    (h : construct q c name v = .ok (sv, p)) : p.name = name ∧ p.type = specKind c := by
+  have hv : ∀ (st : PyVal) (po : Option AProto), (∀ p', po = some p' → p'.name = name) →
+      validated c st po = .ok (sv, p) → p.name = name ∧ p.type = specKind c := by
+    intro st po hn hval
+    unfold validated at hval
+    cases po with
+    | none => simp at hval
+    | some p' =>
+      simp only at hval
+      split at hval
+      · simp at hval
+      · rename_i hty
+        simp only [Except.ok.injEq, Prod.mk.injEq] at hval
+        obtain ⟨_, rfl⟩ := hval
+        exact ⟨hn _ rfl, by rw [← generated_kinds_exact]; simpa using hty⟩
+  have hsc : ∀ a p', scalarProto q name a = some p' → p'.name = name := by
+    intro a p' h'
+    cases a <;> simp only [scalarProto] at h' <;> (try split at h') <;> simp at h' <;> (try subst h') <;> rfl
+  cases c
+  case float32 =>
+    cases v with
+    | seq items => simp [construct, validated, validateCatchAll] at h
+    | atom a =>
+      refine hv _ _ ?_ h
+      intro p' hp'
+      cases a <;> simp only at hp' <;>
+        first
+          | exact hsc _ _ hp'
+          | (simp only [Option.map_eq_some_iff] at hp'; obtain ⟨_, _, rfl⟩ := hp'; rfl)
+          | (simp only [Option.some.injEq] at hp'; subst hp'; rfl)
+  case int64 | string | type_ =>
+    cases v with
+    | seq items => simp [construct, validated, validateCatchAll] at h
+    | atom a => exact hv _ _ (hsc a) h
+  case tensor =>
+    cases v with
+    | seq items => simp [construct, tensorGuard] at h
+    | atom a =>
+      cases a <;> simp only [construct, tensorGuard, if_true, reduceCtorEq] at h
+      · exact hv _ _ (hsc _) h
+      · simp [validated, validateCatchAll] at h
+  case dtype =>
+    cases v with
+    | seq items => simp only [construct] at h; split at h <;> simp at h
+    | atom a =>
+      cases a <;> simp only [construct, reduceCtorEq] at h
+      rename_i d
+      cases d <;> (try simp only [reduceCtorEq] at h)
+      · split at h <;> simp at h
+      · simp only [Except.ok.injEq, Prod.mk.injEq] at h; obtain ⟨_, rfl⟩ := h; exact ⟨rfl, rfl⟩
+  case graph =>
+    cases v with
+    | seq items => simp [construct] at h
+    | atom a =>
+      cases a <;> simp only [construct, reduceCtorEq] at h
+      simp only [Except.ok.injEq, Prod.mk.injEq] at h; obtain ⟨_, rfl⟩ := h; exact ⟨rfl, rfl⟩
+  all_goals
+    simp only [construct] at h
+    split at h
+    · simp at h
+    · refine hv _ _ ?_ h
+      intro p' hp'
+      simp only [Option.map_eq_some_iff] at hp'
+      obtain ⟨_, _, rfl⟩ := hp'
+      rfl
+
+/-- `from_array` never fails on a representable array, so an item is a tensor iff it is an array. -/
+private theorem itemTensor_isSome (q : Bool) (a : Atom) :
+    (itemTensor q a).isSome = (match a with | .ndarray _ => true | _ => false) := by
+  cases a <;> simp [itemTensor, fromArray_total]
+
+private theorem validated_list_isOk {α : Type} (c : Cls) (st : PyVal) (mk : List α → AProto)
+    (r : Option (List α)) (hty : ∀ xs, (mk xs).type = kindOf c) :
+    (validated c st (r.map mk)).isOk = r.isSome := by
+  cases r <;> simp [validated, validateCatchAll, hty, Except.isOk, Except.toBool]
+
+/-- **Validation specification.** On the model's value universe a constructor returns iff the value
+    is of the class's kind … -/
+theorem validate_spec (q : Bool) (c : Cls) (name : String) (v : PyVal) (hd : inDomain c v = true) :
+    (construct q c name v).isOk = rightKind c v := by
+  cases c
+  case float32 =>
+    cases v with
+    | seq items => rfl
+    | atom a =>
+      cases a <;> simp [construct, validated, scalarProto, rightKind, validateCatchAll, kindOf, FLOAT, INT,
+        STRING, TENSOR, TYPE_PROTO, Except.isOk, Except.toBool]
+      case int n f => cases f <;> simp
+      case ndarray a => cases fromArray q a <;> simp
+  case int64 =>
+    cases v with
+    | seq items => rfl
+    | atom a =>
+      cases a <;> simp [construct, validated, scalarProto, rightKind, validateCatchAll, kindOf, FLOAT, INT,
+        STRING, TENSOR, TYPE_PROTO, Except.isOk, Except.toBool]
+      case int n f => cases inInt64 n <;> simp
+      case ndarray a => cases fromArray q a <;> simp
+  case string =>
+    cases v with
+    | seq items => rfl
+    | atom a =>
+      cases a <;> simp [construct, validated, scalarProto, rightKind, validateCatchAll, kindOf, FLOAT, INT,
+        STRING, TENSOR, TYPE_PROTO, Except.isOk, Except.toBool]
+      case int n f => cases inInt64 n <;> simp
+      case ndarray a => cases fromArray q a <;> simp
+  case type_ =>
+    cases v with
+    | seq items => rfl
+    | atom a =>
+      cases a <;> simp [construct, validated, scalarProto, rightKind, validateCatchAll, kindOf, FLOAT, INT,
+        STRING, TENSOR, TYPE_PROTO, Except.isOk, Except.toBool]
+      case int n f => cases inInt64 n <;> simp
+      case ndarray a => cases fromArray q a <;> simp
+  case tensor =>
+    cases v with
+    | seq items => rfl
+    | atom a =>
+      cases a <;> simp [construct, validated, scalarProto, rightKind, validateCatchAll, tensorGuard, kindOf,
+        TENSOR, Except.isOk, Except.toBool]
+      case ndarray a =>
+        have := fromArray_total q a ""
+        cases h : fromArray q a <;> simp [h] at this ⊢
+  case dtype =>
+    cases v with
+    | seq items => rfl
+    | atom a =>
+      cases a <;> simp [construct, rightKind, Except.isOk, Except.toBool]
+      case npdtype d => cases d <;> simp [construct, rightKind, dtypeCatches, Except.isOk, Except.toBool]
+  case graph =>
+    cases v with
+    | seq items => rfl
+    | atom a => cases a <;> simp [construct, rightKind, Except.isOk, Except.toBool]
+  all_goals
+    simp only [construct, rightKind]
+    cases ht : tupleOf v with
+    | none => rfl
+    | some items =>
+      simp only []
+      rw [validated_list_isOk _ _ _ _ (fun _ => rfl), mapM_isSome]
+      try (congr 1; funext a; exact itemTensor_isSome q a)
+
+/-- … and **a value of the wrong kind leaves the call with TypeError** — not with AttributeError or
+    ValueError, and it is never accepted. (Rests on `generated_guards`: with the guard in
+    `AttrTensor.__init__` or the `ValueError` handler in `dtype_to_tensor_type` missing, this theorem
+    does not check.) -/
+theorem wrong_kind_typeerror (q : Bool) (c : Cls) (name : String) (v : PyVal)
+    (hd : inDomain c v = true) (hk : rightKind c v = false) :
+    construct q c name v = .error .typeError := by
+  have hs := validate_spec q c name v hd
+  rw [hk] at hs
+  -- the constructor fails; every failure path of the model yields TypeError under the generated guards
+  have hv : ∀ (st : PyVal) (po : Option AProto), (validated c st po).isOk = false →
+      validated c st po = .error .typeError := by
+    intro st po h'
+    unfold validated at h' ⊢
+    cases po with
+    | none => simp [validateCatchAll]
+    | some p' =>
+      simp only at h' ⊢
+      split
+      · rfl
+      · rename_i hty; simp [hty, Except.isOk, Except.toBool] at h'
+  cases c
+  case float32 | int64 | string | type_ =>
+    cases v with
+    | seq items => exact hv (.seq items) none rfl
+    | atom a => exact hv _ _ hs
+  case tensor =>
+    cases v with
+    | seq items => simp [construct, tensorGuard]
+    | atom a =>
+      cases a <;> simp only [construct, tensorGuard, if_true] at hs ⊢
+      · exact hv _ _ hs
+      · exact hv _ _ rfl
+  case dtype =>
+    cases v with
+    | seq items => rfl
+    | atom a =>
+      cases a <;> (try rfl)
+      case npdtype d =>
+        cases d
+        · simp [construct, dtypeCatches]
+        · simp [rightKind] at hk
+  case graph =>
+    cases v with
+    | seq items => rfl
+    | atom a => cases a <;> first | rfl | simp [rightKind] at hk
+  all_goals
+    simp only [construct] at hs ⊢
+    cases ht : tupleOf v with
+    | none => rfl
+    | some items =>
+      simp only [ht] at hs
+      exact hv _ _ hs
+
+/-- Exact values: what each accepted value puts into the `AttributeProto`. -/
+theorem attr_int_exact (q : Bool) (name : String) (n : Int) (f : Option Nat) (sv : PyVal) (p : AProto)
+    (h : construct q .int64 name (.atom (.int n f)) = .ok (sv, p)) :
+    p.i = n ∧ sv = .atom (.int n f) := by
+  simp only [construct, scalarProto, validated] at h
+  split at h
+  · simp at h
+  · rename_i p' hp'
+    split at hp'
+    · simp only [Option.some.injEq] at hp'; subst hp'
+      split at h
+      · simp at h
+      · simp only [Except.ok.injEq, Prod.mk.injEq] at h; obtain ⟨rfl, rfl⟩ := h; exact ⟨rfl, rfl⟩
+    · simp at hp'
+
+/-- A list attribute keeps its items *in order*, all of them, frozen: the stored value is the tuple
+    of the items, and the proto holds exactly their conversions. -/
+theorem attr_ints_exact (q : Bool) (name : String) (items : List Atom) (sv : PyVal) (p : AProto)
+    (h : construct q .int64s name (.seq items) = .ok (sv, p)) :
+    sv = .seq items ∧ items.mapM itemInt = some p.ints ∧ p.ints.length = items.length := by
+  simp only [construct, tupleOf, validated] at h
+  cases hm : items.mapM itemInt with
+  | none => simp [hm, validateCatchAll] at h
+  | some xs =>
+    simp only [hm, Option.map_some] at h
+    split at h
+    · simp at h
+    · simp only [Except.ok.injEq, Prod.mk.injEq] at h
+      obtain ⟨rfl, rfl⟩ := h
+      exact ⟨rfl, rfl, mapM_length _ _ _ hm⟩
+
+theorem attr_floats_exact (q : Bool) (name : String) (items : List Atom) (sv : PyVal) (p : AProto)
+    (h : construct q .float32s name (.seq items) = .ok (sv, p)) :
+    sv = .seq items ∧ items.mapM itemFloat = some p.floats ∧ p.floats.length = items.length := by
+  simp only [construct, tupleOf, validated] at h
+  cases hm : items.mapM itemFloat with
+  | none => simp [hm, validateCatchAll] at h
+  | some xs =>
+    simp only [hm, Option.map_some] at h
+    split at h
+    · simp at h
+    · simp only [Except.ok.injEq, Prod.mk.injEq] at h
+      obtain ⟨rfl, rfl⟩ := h
+      exact ⟨rfl, rfl, mapM_length _ _ _ hm⟩
+
+theorem attr_strings_exact (q : Bool) (name : String) (items : List Atom) (sv : PyVal) (p : AProto)
+    (h : construct q .strings name (.seq items) = .ok (sv, p)) :
+    sv = .seq items ∧ items.mapM itemStr = some p.strings ∧ p.strings.length = items.length := by
+  simp only [construct, tupleOf, validated] at h
+  cases hm : items.mapM itemStr with
+  | none => simp [hm, validateCatchAll] at h
+  | some xs =>
+    simp only [hm, Option.map_some] at h
+    split at h
+    · simp at h
+    · simp only [Except.ok.injEq, Prod.mk.injEq] at h
+      obtain ⟨rfl, rfl⟩ := h
+      exact ⟨rfl, rfl, mapM_length _ _ _ hm⟩
+
+/-- A tensor attribute holds `from_array` of the array — hence, by `roundtrip`, the array. -/
+theorem attr_tensor_exact (q : Bool) (name : String) (a : Arr) (ha : a.WF) (sv : PyVal) (p : AProto)
+    (h : construct q .tensor name (.atom (.ndarray a)) = .ok (sv, p)) :
+    ∃ t, p.t = some t ∧ toArray q t = some (canon q a) ∧ typeOfProto t = some (a.dtype, a.shape) := by
+  obtain ⟨t, ht, hback⟩ := roundtrip q a "" ha
+  simp only [construct, scalarProto, ht, validated] at h
+  split at h
+  · simp at h
+  · simp only [Except.ok.injEq, Prod.mk.injEq] at h
+    obtain ⟨_, rfl⟩ := h
+    exact ⟨t, rfl, hback, const_type_exact q a "" t ht⟩
+
+/-! ## Part 3 — captured at the call -/
+open Capture
+
+/-- **Heap lemma.** If the way of storing is safe for the kind of argument, then after *any*
+    sequence of caller-side mutations spox reads what it read at the call. -/
+theorem captured (m : Mode) (a : Arg) (hs : safe m a.kind = true) (h : Heap) (ms : List Mut) :
+    observe (mutate h ms) (capture m h a) = observe h (capture m h a) := by
+  cases a <;> cases m <;> simp [safe, Arg.kind] at hs <;> rfl
+
+/-- Keeping the caller's object is *not* safe: one item assignment shows through. -/
+theorem alias_not_captured :
+    ∃ (h : Heap) (ms : List Mut), observe (mutate h ms) (capture .alias h (.flat 0)) ≠
+      observe h (capture .alias h (.flat 0)) :=
+  ⟨⟨fun _ => [1, 2, 3], fun _ => []⟩, [.setFlat 0 [99, 2, 3]], by decide⟩
+
+/-- Freezing a list of arrays into a tuple is not enough either: the arrays are still the caller's. -/
+theorem shallow_freeze_not_captured :
+    ∃ (h : Heap) (ms : List Mut), observe (mutate h ms) (capture .freeze h (.nest 0)) ≠
+      observe h (capture .freeze h (.nest 0)) :=
+  ⟨⟨fun _ => [1, 2], fun _ => [5]⟩, [.setFlat 5 [42, 2]], by decide⟩
+
+/-- Obligation on the table generated from the code on this run: every constructor that receives a
+    caller-owned object stores it in a way that is safe for that kind of object — both as read off
+    the source and as observed on the real objects. -/
+theorem generated_capture_ok : ∀ e ∈ Generated.CaptureTable.table, e.ok = true := by decide
+
+/-- The table has a row for every place of the statement. -/
+theorem generated_capture_complete :
+    ["AttrTensor", "AttrTensors", "AttrFloat32s", "AttrInt64s", "AttrStrings", "BaseVars.variadic",
+     "initializer", "arguments(default)", "constant(value)", "constant(value_ints)", "const(ndarray)",
+     "const(nested list)", "_future.initializer(ndarray)", "_future.initializer(nested list)",
+     "_AttrIterable.maybe"].all
+      (fun s => Generated.CaptureTable.table.any (·.site == s)) = true := by decide
+
+/-- **Captured at the call.** For every constructor of the generated table, every heap, every
+    argument of the row's kind and every sequence of caller-side mutations after the call, what spox
+    reads from the stored value — and therefore every function of it: the bytes of the model, the
+    propagated `_value` — is what it read at the call. -/
+theorem captured_at_call (e : Entry) (he : e ∈ Generated.CaptureTable.table) (a : Arg)
+    (hk : a.kind = e.kind) (h : Heap) (ms : List Mut) {β : Type} (read : List (List Nat) → β) :
+    read (observe (mutate h ms) (capture e.observed h a)) = read (observe h (capture e.observed h a)) := by
+  have hok := generated_capture_ok e he
+  simp only [Entry.ok, Bool.and_eq_true] at hok
+  rw [captured e.observed a (by rw [hk]; exact hok.1) h ms]
+
+/-- The same from the source text alone, for every row whose expression the extractor classifies. -/
+theorem captured_at_call_ast (e : Entry) (he : e ∈ Generated.CaptureTable.table) (hast : e.ast ≠ .opaque)
+    (a : Arg) (hk : a.kind = e.kind) (h : Heap) (ms : List Mut) :
+    observe (mutate h ms) (capture e.ast h a) = observe h (capture e.ast h a) := by
+  have hok := generated_capture_ok e he
+  simp only [Entry.ok, Bool.and_eq_true, Bool.or_eq_true, beq_iff_eq] at hok
+  rcases hok.2 with h2 | h2
+  · exact captured e.ast a (by rw [hk]; exact h2) h ms
+  · exact absurd h2 hast
+
+/-- Non-vacuity: a real mutation history against a copied array and a frozen list of Vars. -/
+example : observe (mutate ⟨fun _ => [1, 2, 3], fun _ => []⟩ [.setFlat 0 [9], .setFlat 0 []])
+    (capture .copy ⟨fun _ => [1, 2, 3], fun _ => []⟩ (.flat 0)) = [[1, 2, 3]] := by decide
+
+end C10
